@@ -277,3 +277,98 @@ func c03Interrupt(after bool) {
 
 func VerifC03InterruptAfter()  { c03Interrupt(true) }
 func VerifC03InterruptBefore() { c03Interrupt(false) }
+
+type c03State struct{ V int }
+
+// Batch mode: the state pre-handlers of all nodes of a step run before any node body of that step starts, so what a
+// pre-handler reads from the state does not depend on how far a sibling body got.
+func c03PreHandlers(dag bool) {
+	ctx := context.Background()
+	vcfg("preempt", 2)
+	g := NewGraph[map[string]any, map[string]any](WithGenLocalState(func(ctx context.Context) *c03State { return &c03State{} }))
+	names := []string{"a", "b", "c"}
+	for _, k := range names {
+		key := k
+		_ = g.AddLambdaNode(key, InvokableLambda(func(ctx context.Context, in map[string]any) (map[string]any, error) {
+			_ = ProcessState(ctx, func(ctx context.Context, s *c03State) error { s.V += 10; return nil })
+			vyield()
+			seen, _ := in["seen"].(int)
+			return map[string]any{key: seen}, nil
+		}), WithStatePreHandler(func(ctx context.Context, in map[string]any, s *c03State) (map[string]any, error) {
+			return map[string]any{"seen": s.V}, nil
+		}))
+		_ = g.AddEdge(START, key)
+		_ = g.AddEdge(key, END)
+	}
+	var opts []GraphCompileOption
+	if dag {
+		opts = append(opts, WithNodeTriggerMode(AllPredecessor))
+	}
+	r, err := g.Compile(ctx, opts...)
+	vassert(err == nil, "graph compiles")
+	out, rerr := r.Invoke(ctx, map[string]any{"in": 1})
+	vassert(rerr == nil, "run succeeds under every schedule")
+	for _, k := range names {
+		vassert(out[k] == 0, "node "+k+"'s pre-handler saw the state as it was when the step began, whatever its siblings' bodies had done by then")
+	}
+	vquiesce()
+}
+
+func VerifC03PreHandlersPregel() { c03PreHandlers(false) }
+func VerifC03PreHandlersDAG()    { c03PreHandlers(true) }
+
+// Eager run in which one node asks for interrupt-and-rerun while three siblings are still running: the run returns
+// the interrupt only after every started node has finished, and the resumed run completes with every node executed
+// once (the asking node attempted twice).
+func VerifC03RerunDrain() {
+	ctx := context.Background()
+	vcfg("preempt", 1)
+	counts := map[string]int{}
+	started := map[string]int{}
+	body := func(key string, rerun bool) *Lambda {
+		return InvokableLambda(func(ctx context.Context, in map[string]any) (map[string]any, error) {
+			vMu.Lock()
+			started[key]++
+			first := started[key] == 1
+			vMu.Unlock()
+			if rerun && first {
+				vMu.Lock()
+				counts[key]++
+				vMu.Unlock()
+				return nil, InterruptAndRerun
+			}
+			vyield()
+			vMu.Lock()
+			counts[key]++
+			vMu.Unlock()
+			return map[string]any{key: 1}, nil
+		})
+	}
+	wf := NewWorkflow[map[string]any, map[string]any]()
+	wf.AddLambdaNode("a", body("a", true)).AddInput(START)
+	wf.AddLambdaNode("b", body("b", false)).AddInput(START)
+	wf.AddLambdaNode("c", body("c", false)).AddInput(START)
+	wf.AddLambdaNode("d", body("d", false)).AddInput(START)
+	e := wf.End()
+	for _, k := range []string{"a", "b", "c", "d"} {
+		e.AddInput(k, ToField(k))
+	}
+	store := &c03Store{m: map[string][]byte{}}
+	r, err := wf.Compile(ctx, WithCheckPointStore(store))
+	vassert(err == nil, "workflow compiles")
+	in := map[string]any{"in": 1}
+	_, e1 := r.Invoke(ctx, in, WithCheckPointID("c03r"))
+	_, ok := ExtractInterruptInfo(e1)
+	vassert(ok, "the first call is interrupted")
+	for _, k := range []string{"a", "b", "c", "d"} {
+		vassert(started[k] == counts[k], "the run does not return before every node it started has finished: "+k)
+	}
+	out, e2 := r.Invoke(ctx, in, WithCheckPointID("c03r"))
+	vassert(e2 == nil, "the resumed run completes under every schedule")
+	vassert(len(out) == 4, "the result holds every lane")
+	vassert(started["a"] == 2, "the asking node is attempted exactly once more")
+	for _, k := range []string{"b", "c", "d"} {
+		vassert(started[k] == 1, "node "+k+" executed exactly once over interrupt and resume: its completion was not lost")
+	}
+	vquiesce()
+}
